@@ -9,58 +9,7 @@ verus! {
 //@ item actors/miner/src/partition_state.rs Partition
 //@ item actors/miner/src/quantize.rs QuantSpec attr="#[derive(Clone, Copy)]"
 //@ include prelude/miner_partition_assumed.rs
-// derive(Clone, Default) of PowerPair re-stated (derives are stripped by the extractor); verified, not assumed
-impl Clone for PowerPair {
-    fn clone(&self) -> (r: Self) ensures r.raw@ == self.raw@, r.qa@ == self.qa@ { PowerPair { raw: self.raw.clone(), qa: self.qa.clone() } }
-}
-impl Default for PowerPair {
-    fn default() -> (r: Self) ensures r.raw@ == 0, r.qa@ == 0 { PowerPair { raw: BigInt::zero(), qa: BigInt::zero() } }
-}
-// operator glue demanded by Verus for every overloaded operator (no semantic content: *_req true, results by the ensures of the real fns)
-impl<'a> vstd::std_specs::ops::AddSpecImpl<&'a PowerPair> for &'a PowerPair {
-    open spec fn obeys_add_spec() -> bool { false }
-    open spec fn add_req(self, rhs: &'a PowerPair) -> bool { true }
-    uninterp spec fn add_spec(self, rhs: &'a PowerPair) -> PowerPair;
-}
-impl<'a> vstd::std_specs::ops::SubSpecImpl<&'a PowerPair> for &'a PowerPair {
-    open spec fn obeys_sub_spec() -> bool { false }
-    open spec fn sub_req(self, rhs: &'a PowerPair) -> bool { true }
-    uninterp spec fn sub_spec(self, rhs: &'a PowerPair) -> PowerPair;
-}
-impl<'a> vstd::std_specs::ops::AddAssignSpecImpl<&'a PowerPair> for PowerPair {
-    open spec fn obeys_add_assign_spec() -> bool { false }
-    open spec fn add_assign_req(&self, rhs: &'a PowerPair) -> bool { true }
-    uninterp spec fn add_assign_spec(&self, rhs: &'a PowerPair) -> &PowerPair;
-}
-impl vstd::std_specs::ops::NegSpecImpl for PowerPair {
-    open spec fn obeys_neg_spec() -> bool { false }
-    open spec fn neg_req(self) -> bool { true }
-    uninterp spec fn neg_spec(self) -> PowerPair;
-}
-impl<'a> vstd::std_specs::ops::SubAssignSpecImpl<&'a PowerPair> for PowerPair {
-    open spec fn obeys_sub_assign_spec() -> bool { false }
-    open spec fn sub_assign_req(&self, rhs: &'a PowerPair) -> bool { true }
-    uninterp spec fn sub_assign_spec(&self, rhs: &'a PowerPair) -> &PowerPair;
-}
-
-//@ fn actors/miner/src/partition_state.rs PowerPair::zero
-    ensures r.raw@ == 0, r.qa@ == 0,
-//@ end
-//@ fn actors/miner/src/partition_state.rs "<&PowerPair as Add>::add"
-    ensures r.raw@ == self.raw@ + rhs.raw@, r.qa@ == self.qa@ + rhs.qa@,
-//@ end
-//@ fn actors/miner/src/partition_state.rs "<&PowerPair as Sub>::sub"
-    ensures r.raw@ == self.raw@ - rhs.raw@, r.qa@ == self.qa@ - rhs.qa@,
-//@ end
-//@ fn actors/miner/src/partition_state.rs "<PowerPair as AddAssign>::add_assign"
-    ensures final(self).raw@ == old(self).raw@ + rhs.raw@, final(self).qa@ == old(self).qa@ + rhs.qa@,
-//@ end
-//@ fn actors/miner/src/partition_state.rs "<=PowerPair as Neg>::neg"
-    ensures r.raw@ == -self.raw@, r.qa@ == -self.qa@,
-//@ end
-//@ fn actors/miner/src/partition_state.rs "<PowerPair as SubAssign>::sub_assign"
-    ensures final(self).raw@ == old(self).raw@ - rhs.raw@, final(self).qa@ == old(self).qa@ - rhs.qa@,
-//@ end
+//@ include units/shared/power_pair.inc
 
 // ======================= the protocol's nesting of the five sets =======================
 pub open spec fn bf_nested(p: Partition) -> bool {
